@@ -5,11 +5,13 @@ import (
 	"crypto/sha256"
 	"errors"
 	"fmt"
+	"os"
 	"sync"
 	"time"
 
 	ct "github.com/google/certificate-transparency-go"
 
+	"verif/internal/harness"
 	"verif/internal/vt"
 )
 
@@ -130,4 +132,50 @@ type SubOut struct {
 	SetupErr  string // policy / group construction refused the list (level 1)
 	CtxEnded  bool   // the caller's context had ended when the call returned
 	Released  bool   // the call only returned because the watchdog cancelled everything
+}
+
+// guarded runs f - which executes a bubble - on a goroutine of its own and reports whether it ran to
+// completion. synctest.Test calls t.FailNow (runtime.Goexit) as soon as the race detector has reported
+// anything during the bubble; on the goroutine of the check that would end the whole sub-property without
+// a verdict for the case. A panic in f is re-raised in the caller.
+func guarded(f func()) (completed bool) {
+	if os.Getenv("VERIF_C17_NOGUARD") != "" {
+		f()
+		return true
+	}
+	type res struct {
+		ok bool
+		p  any
+	}
+	ch := make(chan res, 1)
+	go func() {
+		r := res{}
+		defer func() {
+			if !r.ok {
+				r.p = recover()
+			}
+			ch <- r
+		}()
+		f()
+		r.ok = true
+	}()
+	r := <-ch
+	if r.p != nil {
+		panic(r.p)
+	}
+	return r.ok
+}
+
+// inProcessRaces judges the race-detector evidence of a case that ran inside this process. It returns
+// false when the observation is unusable (the bubble was aborted).
+func inProcessRaces(v *harness.Verdict, sig string, races0 int, completed bool) bool {
+	if d := raceErrors() - races0; d > 0 {
+		v.Failf(sig, "the race detector reported %d data race(s) while this case ran in-process (the report is in the test log; the detector prints each racing pair of stacks once per process, so a replay in a fresh process shows it again)", d)
+		return false
+	}
+	if !completed {
+		v.Failf("bubble-aborted", "the bubble of this case was aborted by package testing without a race report")
+		return false
+	}
+	return true
 }
